@@ -336,14 +336,21 @@ func getAsync(c *Ctx) {
 				}
 				good := true
 				for _, r := range returnsOf(ps[0]) {
-					fromErr := P.PathExists(ps[0], ifn, an.Is(r), nil, cutEdge(ifn, ns))
-					fromOK := P.PathExists(ps[0], okIfs[0], an.Is(r), nil, cutEdge(okIfs[0], 1-ts))
-					if !fromErr && !fromOK {
-						continue
-					}
-					for _, v := range c.retVals(r, 0) {
-						if bv, isB := constBool(v); !isB || !bv {
-							good = false
+					// (a return of a value joined from several arms is judged arm by arm)
+					for _, tp := range c.returnTuples(r) {
+						fromErr := P.PathExists(ps[0], ifn, an.Is(tp.site), nil, cutEdge(ifn, ns))
+						fromOK := P.PathExists(ps[0], okIfs[0], an.Is(tp.site), nil, cutEdge(okIfs[0], 1-ts))
+						if !fromErr && !fromOK {
+							continue
+						}
+						vs := []ssa.Value{tp.vals[0]}
+						if tp.site == ssa.Instruction(r) {
+							vs = c.retVals(r, 0)
+						}
+						for _, v := range vs {
+							if bv, isB := constBool(v); !isB || !bv {
+								good = false
+							}
 						}
 					}
 				}
